@@ -919,6 +919,11 @@ func privateCell(a *ssa.Alloc) bool {
 
 // preservingPrivate runs a heap havoc and then restores the private cells and private maps.
 func (ex *Exec) preservingPrivate(st *State, havoc func()) {
+	if ex.loopHavoc {
+		// a loop's own footprint: the loop body may well modify the function's private cells and maps
+		havoc()
+		return
+	}
 	type saved struct {
 		c privCell
 		v Val
